@@ -34,6 +34,8 @@ BREAKS = [
     ('MatchExpr ignores the segment of a cell', 'miasmx/expression/expression.py', '        if e.size != m.size or e.segm != m.segm:', '        if e.size != m.size:', 'checks.C16smt', 'ind:MatchExpr[ExprMem'),
     ('substract_mems: surviving head one byte too long', 'miasmx/expression/expression_eval_abstract.py', '                val = self.pool[a][0:ptr_diff*8]\n', '                val = self.pool[a][0:ptr_diff*8+8]\n', 'checks.C07smt', 'substract_mems['),
     ('substract_mems: surviving tail addressed from the wrong cell', 'miasmx/expression/expression_eval_abstract.py', "                ex = ExprOp('+', b.arg, ExprInt(uint32(b.size/8)))", "                ex = ExprOp('+', a.arg, ExprInt(uint32(b.size/8)))", 'checks.C07smt', 'substract_mems['),
+    ('slice_rest: last bit of the register lost', 'miasmx/expression/expression.py', '    if stop < size:\n        rest.append((stop, size))', '    if stop < size - 1:\n        rest.append((stop, size))', 'checks.C11smt', 'slice_rest:post'),
+    ('ExprAff: parts of the rewritten source not in bit order', 'miasmx/expression/expression.py', 'all_a = sorted([(src, dst.start, dst.stop)] + rest, key=lambda x:x[1])', 'all_a = [(src, dst.start, dst.stop)] + rest', 'checks.C11smt', 'ExprAff.__init__[slice destination]'),
 ]
 
 DRIVER = r'''
